@@ -36,13 +36,19 @@ StepEv(e) ==
             g2 == Total(e.rle) = 32769
             g3 == InRangeRle(e.rle, e.lo, e.hi)
             g4 == (e.wmin <= e.wmax => MonotoneRle(e.rle, FALSE)) /\ (e.wmin >= e.wmax => MonotoneRle(e.rle, TRUE))
-            g5 == e.others_unchanged IN
+            g5 == e.others_unchanged
+            \* the plain case - unity gain, no quantization, linear curve, full window: the extreme inputs deliver the ends of
+            \* the target's range (a mapped link does drive its target; the same fact RVSystem!SysFeed composes)
+            plain == e.gain = 256 /\ e.quant = 32768 /\ e.curve = "default" /\ {e.wmin, e.wmax} = {0, 32768} /\ e.kind = "range"
+            g6 == plain /\ g1 /\ g2 => LET a == e.rle[1][1]  b == e.rle[Len(e.rle)][1] IN
+                     IF e.wmin = 0 THEN a = e.lo /\ b = e.hi ELSE a = e.hi /\ b = e.lo IN
+        /\ Check(g6, "plain-feed-misses-range-ends", <<e.lo, e.hi>>, <<e.rle[1], e.rle[Len(e.rle)]>>)
         /\ Check(g1, "delivery-raised", "ok", <<e.outcome, e.bad_input>>)
         /\ Check(g1 => g2, "all-inputs-delivered", 32769, Total(e.rle))
         /\ Check(g3, "delivered-out-of-range", <<e.lo, e.hi>>, e.rle)
         /\ Check(g4, "not-monotone", <<e.wmin, e.wmax>>, e.rle)
         /\ Check(g5, "other-controllers-changed", "unchanged", "changed")
-        /\ ok' = (ok /\ g1 /\ g2 /\ g3 /\ g4 /\ g5))
+        /\ ok' = (ok /\ g1 /\ g2 /\ g3 /\ g4 /\ g5 /\ g6))
   [] OTHER -> Say("unknown-op", "", e.op) /\ ok' = FALSE
 
 Step == /\ l <= Len(Traces[tid].events) /\ StepEv(Ev) /\ l' = l + 1 /\ UNCHANGED tid
